@@ -131,7 +131,7 @@ CRITERIA = [
     '', '=', '<>', None,
     True, False, 'TRUE', '=TRUE', '<>TRUE', '<TRUE', '>FALSE', '<=TRUE', '>=FALSE', '<=FALSE',
 ]
-SUMR = {'sum': [10, 200, 3000], 'mix1': [10, 'x', None], 'mix2': [True, 200, 3000]}
+SUMR = {'sum': [10, 200, 3000], 'mix1': [10, 'x', None], 'mix2': [True, 200, 3000], 'zero': [0, 0, 5], 'neg': [-5, 5, 0]}
 
 
 def posval(i, j, blanks=True):
@@ -393,8 +393,8 @@ def run_criteria(case):
         exp = ref(rng, crit) if sumr is None else ref(rng, crit, sumr)
         got = eval_formula(f, inputs)
         execs += 1
-        if exp is None:
-            ocs.append('%s:not-judged' % fn)
+        if exp is None or (raw is None and any(x[0] == 'n' and x[1] == 0 for x in rng)):
+            ocs.append('%s:not-judged' % fn)        # a blank criterion against zeros: the statement does not say whether blank selects 0
             continue
         ft = crit_features(rng, crit)
         ocs.append('%s:%s:%s:%s' % (fn, ft['op'], ft['ok'], okind(got)))
@@ -423,6 +423,16 @@ def criteria_cases(tier):
         for v in vs:
             for fn, form, orient, csp in MAIN + (SECOND + (THIRD if tier == 'thorough' else []) if n < 3 else []):
                 yield [fn, list(v), form, orient, csp]
+    # selections whose elements are all zero, or cancel out: the average of such a selection is 0, not 'nothing selected'
+    for n in (1, 2, 3):
+        for v in itertools.product([0, 1, 'a'], repeat=n):
+            for fn, form in (('AVERAGEIF', 'nosum'), ('SUMIF', 'nosum'), ('COUNTIF', '-')):
+                if 0 in v:
+                    yield [fn, list(v), form, 'row', 'lit']
+        for v in itertools.product([1, 2, 'a'], repeat=n):
+            for fn in ('AVERAGEIF', 'SUMIF'):
+                for form in ('zero', 'neg'):
+                    yield [fn, list(v), form, 'row', 'lit']
 
 
 # -- an array of criteria in ONE call: element j must be what criterion j gives alone ----------------------
